@@ -592,6 +592,7 @@ fn base_spec(prop: &str, hist: Vec<SOp>, cfg: Cfg) -> HistSpec {
         o_c15: false,
         max_executions: 200_000,
         lock_window: false,
+        nested: false,
     }
 }
 
@@ -630,6 +631,7 @@ pub fn sched_specs(prop: &str, tier: &str) -> Vec<HistSpec> {
                         s.o_c03 = prop == "C03";
                         s.o_c05 = prop == "C05";
                         s.every_byte_newest = thorough;
+                        s.nested = thorough || len <= 2;
                         out.push(s);
                     }
                 }
